@@ -7,6 +7,7 @@ Theorems about DhtVerif/Model/Security.lean for every IPv4/IPv6 address
 import DhtVerif.Model.Security
 import DhtVerif.Lemmas.C17
 namespace Dht
+open C17
 
 /-- The regenerated masks are the BEP 42 masks (side condition on the source). -/
 theorem C17.masks_are_bep42 :
@@ -17,24 +18,37 @@ theorem C17.masks_are_bep42 :
 /-- Securing never crashes on a real address and keeps the length. -/
 theorem C17.secure_total (id ip : List UInt8) (hid : id.length = 20) (hip : validIp ip = true) :
     ∃ id', secureNodeId id ip = some id' ∧ id'.length = 20 := by
-  sorry
+  obtain ⟨a0, a1, a2, rest, rfl, hr⟩ := list20_shape id hid
+  obtain ⟨c, hc⟩ := crcIP_total ip (rest.getD 16 0) hip
+  rw [secure_shape, hc]
+  exact ⟨_, rfl, by simp [hr]⟩
 
 /-- Securing an ID changes only its first 21 bits: bytes 3..19 and the low
 three bits of byte 2 are untouched. -/
 theorem C17.secure_touches_21_bits (id ip id' : List UInt8) (hid : id.length = 20)
     (h : secureNodeId id ip = some id') :
     id'.drop 3 = id.drop 3 ∧ (id'.getD 2 0 &&& 7) = (id.getD 2 0 &&& 7) := by
-  sorry
+  obtain ⟨a0, a1, a2, rest, c, rfl, hr, hc, rfl⟩ := secure_inv id ip id' hid h
+  exact ⟨rfl, u8_merge_lo _ _⟩
 
 /-- Securing is idempotent. -/
 theorem C17.secure_idempotent (id ip id' : List UInt8) (hid : id.length = 20)
     (h : secureNodeId id ip = some id') : secureNodeId id' ip = some id' := by
-  sorry
+  obtain ⟨a0, a1, a2, rest, c, rfl, hr, hc, rfl⟩ := secure_inv id ip id' hid h
+  rw [secure_shape, hc, Option.map_some, u8_merge_lo]
 
 /-- A secured ID verifies for the address it was secured for. -/
 theorem C17.secure_then_valid (id ip id' : List UInt8) (hid : id.length = 20)
     (h : secureNodeId id ip = some id') : nodeIdSecure id' ip = some true := by
-  sorry
+  obtain ⟨a0, a1, a2, rest, c, rfl, hr, hc, rfl⟩ := secure_inv id ip id' hid h
+  unfold nodeIdSecure
+  split
+  · rfl
+  · rw [getD19_shape, hc]
+    have h0 : ∀ (x y z : UInt8), (x :: y :: z :: rest).getD 0 0 = x := fun _ _ _ => rfl
+    have h1 : ∀ (x y z : UInt8), (x :: y :: z :: rest).getD 1 0 = y := fun _ _ _ => rfl
+    have h2 : ∀ (x y z : UInt8), (x :: y :: z :: rest).getD 2 0 = z := fun _ _ _ => rfl
+    simp only [h0, h1, h2, u8_merge_hi, beq_self_eq_true, Bool.and_self]
 
 /-- Verification is the BEP 42 rule: local addresses accept everything;
 otherwise the ID's first 21 bits must equal the top 21 bits of CRC32-C over
@@ -42,17 +56,25 @@ the masked address seeded with the low three bits of the last ID byte. -/
 theorem C17.valid_iff_spec (id ip : List UInt8) (hid : id.length = 20) (hip : validIp ip = true) :
     ∃ p, bep42Prefix ip (id.getD 19 0) = some p ∧
       nodeIdSecure id ip = some (isLocalNetwork ip || decide (prefix21 id = p)) := by
-  sorry
+  have _ := hid
+  obtain ⟨c, hc⟩ := crcIP_total ip (id.getD 19 0) hip
+  refine ⟨(byte c 24, byte c 16, byte c 8 &&& 0xf8), by simp only [bep42Prefix, hc, Option.map_some], ?_⟩
+  unfold nodeIdSecure
+  split
+  · rename_i hl; simp [hl]
+  · rename_i hl
+    rw [hc]
+    simp [hl, prefix21, Bool.decide_and, Bool.and_assoc, Bool.beq_eq_decide_eq]
 
 /-- The CRC input depends only on the low three bits of the seed byte. -/
 theorem C17.seed_low_three_bits (ip : List UInt8) (r : UInt8) :
     crcIP ip r = crcIP ip (r &&& 7) := by
-  sorry
+  simp only [crcIP, u8_and7_and7]
 
 /-- Every ID is accepted for private, loopback and link-local addresses. -/
 theorem C17.local_always_valid (id ip : List UInt8) (h : isLocalNetwork ip = true) :
     nodeIdSecure id ip = some true := by
-  sorry
+  simp [nodeIdSecure, h]
 
 /-- 10/8, 172.16/12, 192.168/16, 169.254/16, 127/8 (also in v4-mapped form), fe80::/10 and ::1 are local. -/
 theorem C17.local_ranges :
@@ -63,11 +85,68 @@ theorem C17.local_ranges :
     (∀ b c d : UInt8, b &&& 0xf0 = 16 → isLocalNetwork [172, b, c, d] = true) ∧
     (∀ b c d : UInt8, isLocalNetwork (v4InV6Prefix ++ [10, b, c, d]) = true) ∧
     isLocalNetwork [0,0,0,0,0,0,0,0,0,0,0,0,0,0,0,1] = true := by
-  sorry
+  refine ⟨?_, ?_, ?_, ?_, ?_, ?_, ?_⟩
+  · intro b c d; simp [isLocalNetwork, to4, inPrefix, u8_and_255]
+  · intro c d; simp [isLocalNetwork, to4, inPrefix, u8_and_255]
+  · intro c d; simp [isLocalNetwork, to4, inPrefix, u8_and_255]
+  · intro b c d; simp [isLocalNetwork, to4, inPrefix, u8_and_255]
+  · intro b c d h; simp [isLocalNetwork, to4, inPrefix, h, u8_and_255]
+  · intro b c d; simp [isLocalNetwork, to4, inPrefix, v4InV6Prefix, u8_and_255]
+  · decide
 
 /-! Non-vacuity: the first BEP 42 test vector (124.31.75.21, seed 1 -> 5fbfbf…). -/
 example : (secureNodeId ([0,0,0xf8] ++ List.replicate 16 0 ++ [1]) [124,31,75,21]).map (·.take 3) =
     some [0x5f, 0xbf, 0xb8] := by decide +kernel
 example : validIp [124,31,75,21] = true := by decide
+
+/-! Further (stronger) facts. -/
+
+/-- The secured ID carries exactly the BEP 42 prefix for the address and the
+seed in the (unchanged) last ID byte. -/
+theorem C17.secure_sets_bep42_prefix (id ip id' : List UInt8) (hid : id.length = 20)
+    (h : secureNodeId id ip = some id') :
+    bep42Prefix ip (id.getD 19 0) = some (prefix21 id') ∧ id'.getD 19 0 = id.getD 19 0 := by
+  obtain ⟨a0, a1, a2, rest, c, rfl, hr, hc, rfl⟩ := secure_inv id ip id' hid h
+  refine ⟨?_, rfl⟩
+  rw [getD19_shape, bep42Prefix, hc, Option.map_some]
+  show some (byte c 24, byte c 16, byte c 8 &&& 0xf8) =
+    some (byte c 24, byte c 16, ((byte c 8 &&& 0xf8) ||| (a2 &&& 7)) &&& 0xf8)
+  rw [u8_merge_hi]
+
+/-- Securing fails exactly when the CRC input cannot be formed (address too short). -/
+theorem C17.secure_none_iff (id ip : List UInt8) :
+    secureNodeId id ip = none ↔ crcIP ip (id.getD 19 0) = none := by
+  unfold secureNodeId
+  cases crcIP ip (id.getD 19 0) <;> simp
+
+/-- fe80::/10 (link-local unicast) is local. -/
+theorem C17.local_fe80 (ip : List UInt8) (hl : ip.length = 16) (h0 : ip.getD 0 0 = 0xfe)
+    (h1 : ip.getD 1 0 &&& 0xc0 = 0x80) : isLocalNetwork ip = true := by
+  match ip, hl with
+  | a0 :: a1 :: rest, hr =>
+    have e0 : a0 = 0xfe := h0
+    have e1 : a1 &&& 0xc0 = 0x80 := h1
+    subst e0
+    have hr' : rest.length = 14 := by simpa using hr
+    simp [isLocalNetwork, to4, hr', v4InV6Prefix, e1]
+example : isLocalNetwork [0xfe,0x80,0,0,0,0,0,0,0,0,0,0,0,0,0,1] = true := by decide
+
+/-! More non-vacuity: a 16-byte (non-mapped) address, a v4-mapped address, the
+172.16/12 side condition, verification of the test vector, and a malformed
+address on which the Go code would crash (so `validIp` is needed). -/
+example : validIp [0x20,0x01,0x0d,0xb8,0,0,0,0,0,0,0,0,0,0,0,1] = true := by decide
+example : (secureNodeId (List.replicate 19 0 ++ [1]) [0x20,0x01,0x0d,0xb8,0,0,0,0,0,0,0,0,0,0,0,1]).isSome = true := by
+  decide +kernel
+example : secureNodeId ([0,0,0xf8] ++ List.replicate 16 0 ++ [1]) (v4InV6Prefix ++ [124,31,75,21]) =
+    secureNodeId ([0,0,0xf8] ++ List.replicate 16 0 ++ [1]) [124,31,75,21] := by decide +kernel
+example : nodeIdSecure ([0x5f, 0xbf, 0xbf] ++ List.replicate 16 0 ++ [1]) [124,31,75,21] = some true := by
+  decide +kernel
+example : nodeIdSecure ([0x5f, 0xbf, 0x3f] ++ List.replicate 16 0 ++ [1]) [124,31,75,21] = some false := by
+  decide +kernel
+example : isLocalNetwork [124,31,75,21] = false := by decide
+example : (31 : UInt8) &&& 0xf0 = 16 := by decide
+example : isLocalNetwork [172, 32, 0, 1] = false := by decide
+example : crcIP [1,2,3] 0 = none := by decide
+example : secureNodeId (List.replicate 20 0) [1,2,3] = none := by decide
 
 end Dht
